@@ -255,6 +255,7 @@ func checkC18(p *Program, r *Report) {
 	// option in force: the documented default (on) must survive the option normalisation
 	r.Explanation += " (options) the option normalisation leaves DedupValue true whenever the caller did not set it, and forces the prefix kinds exactly when Complete is true (rule shared with C13)."
 	checkOptNormalisationAs(p, r, "C18.options")
+	checkSingleLeafGuard(p, r)
 }
 
 func init() { checks["C18"] = checkC18 }
@@ -367,5 +368,141 @@ func checkFreshFor(p *Program, r *Report, rule string, reader *ssa.Function, wha
 		}
 		r.Check(len(bad) == 0, what+" reads st."+f+": replaced by every successful Unmarshal", p.Pos(reader.Pos()), fmt.Sprintf("for all %d compatible versions", len(vt.compatVer)),
 			"st."+f+" is read by "+what+" but a successful Unmarshal of version(s) "+strings.Join(bad, ",")+" does not replace it: "+what+" can report the previous contents")
+	}
+}
+
+// checkSingleLeafGuard (C18.single-leaf): the node total is read off the label bitmaps (rank of
+// Slim.Inners at its last position) — except for a trie without any inner node, whose single leaf is
+// reported as the constant total. Where that rank query is guarded by a comparison of the inner-node
+// total (a rank of Slim.NodeTypeBM at its last position) with a constant, the guard must admit every
+// trie with at least one inner node: the constant fallback is for "no inner node" only. A guard that
+// starts at two reports a trie whose keys all part at the root as one node and no key.
+func checkSingleLeafGuard(p *Program, r *Report) {
+	saved := r.curRule
+	defer func() { r.curRule = saved }()
+	r.Rule("C18.single-leaf", "CFG + intervals", "the constant node total is used only for a trie without inner nodes", 0)
+	r.Explanation += " (single-leaf) where the rank query that yields the node total is guarded by a comparison of the inner-node total with a constant, the guard admits every trie with at least one inner node."
+	judged := 0
+	for _, f := range p.FuncsOf(triePath) {
+		if f.Synthetic != "" || len(f.Blocks) == 0 {
+			continue
+		}
+		e := newEval(p)
+		fromTypeRank := func(v ssa.Value) bool {
+			found := false
+			for x := range phiClosure(v) {
+				var stack []ssa.Value
+				stack = append(stack, x)
+				for d := 0; len(stack) > 0 && d < 32; d++ {
+					y := stack[len(stack)-1]
+					stack = stack[:len(stack)-1]
+					switch z := y.(type) {
+					case *ssa.BinOp:
+						stack = append(stack, z.X, z.Y)
+					case *ssa.Convert:
+						stack = append(stack, z.X)
+					case *ssa.Extract:
+						if c, ok := z.Tuple.(*ssa.Call); ok && calleeIs(c, idRank64, idRank128) && len(c.Call.Args) >= 1 {
+							if strings.HasSuffix(e.pathOrTerm(c.Call.Args[0]), "NodeTypeBM.Words") {
+								found = true
+							}
+						}
+					}
+				}
+			}
+			return found
+		}
+		for _, c := range callsIn(f) {
+			call, ok := c.(*ssa.Call)
+			if !ok || !calleeIs(call, idRank64, idRank128) || len(call.Call.Args) < 3 {
+				continue
+			}
+			if !strings.HasSuffix(e.pathOrTerm(call.Call.Args[0]), "Inners.Words") {
+				continue
+			}
+			words := e.pathOrTerm(call.Call.Args[0])
+			last := O("add", K(-1), mulTerms(K(64), ON("len", "", S(words))))
+			pos := e.eval(call.Call.Args[2]).String()
+			if pos != last.String() && pos != ON("conv", "int32", last).String() {
+				continue
+			}
+			// the controlling comparison
+			b := call.Block()
+			id := b.Idom()
+			if id == nil || len(b.Preds) != 1 {
+				continue
+			}
+			iff, ok := lastInstr(id).(*ssa.If)
+			if !ok {
+				continue
+			}
+			op, cx, cy, cpos, ok := cmpOf(iff.Cond)
+			if !ok {
+				continue
+			}
+			onTrue := id.Succs[0] == b
+			var X ssa.Value
+			var k int64
+			if kv, isK := constInt(cy); isK {
+				X, k = cx, kv
+			} else if kv, isK := constInt(cx); isK {
+				X, k = cy, kv
+				switch op {
+				case token.LSS:
+					op = token.GTR
+				case token.LEQ:
+					op = token.GEQ
+				case token.GTR:
+					op = token.LSS
+				case token.GEQ:
+					op = token.LEQ
+				}
+			} else {
+				continue
+			}
+			if !fromTypeRank(X) {
+				continue
+			}
+			if !onTrue {
+				switch op {
+				case token.LSS:
+					op = token.GEQ
+				case token.LEQ:
+					op = token.GTR
+				case token.GTR:
+					op = token.LEQ
+				case token.GEQ:
+					op = token.LSS
+				case token.EQL:
+					op = token.NEQ
+				case token.NEQ:
+					op = token.EQL
+				}
+			}
+			// the smallest inner-node total for which the rank query runs (totals are >= 0)
+			lowest := int64(-1)
+			switch op {
+			case token.GTR:
+				lowest = k + 1
+			case token.GEQ:
+				lowest = k
+			case token.NEQ:
+				if k == 0 {
+					lowest = 1
+				}
+			}
+			judged++
+			r.Func(shortFn(f))
+			construct := "guard of the node-total rank query in " + shortFn(f)
+			if lowest < 0 {
+				r.Bad(construct, p.Pos(cpos), "the rank query runs only for small inner-node totals: tries with inner nodes get the constant total of a single leaf")
+				continue
+			}
+			r.Check(lowest <= 1, construct, p.Pos(cpos), "the rank query runs for every trie with at least one inner node",
+				fmt.Sprintf("the rank query runs only from %d inner nodes on: a trie with fewer (e.g. keys that all part at the root) is reported with the constant total of a single leaf — NodeCnt 1, KeyCnt 0", lowest))
+		}
+	}
+	if judged == 0 {
+		r.Note("C18.single-leaf: no constant-guarded rank query for the node total found (not judged)")
 	}
 }
